@@ -44,6 +44,8 @@ pub fn expand_position(
         .unwrap_or_else(|| info.clone());
 
     // increase position
+    let mut previous_position_amount = Uint128::zero();
+    let mut expanded_position_amount = Uint128::zero();
     OPEN_POSITIONS.update::<_, ContractError>(
         deps.storage,
         receiver.sender.clone(),
@@ -56,14 +58,24 @@ pub fn expand_position(
                 .find(|position| position.unbonding_duration == unbonding_duration)
                 .ok_or(ContractError::NonExistentPosition { unbonding_duration })?;
 
+            previous_position_amount = pos.amount;
             pos.amount += amount;
+            expanded_position_amount = pos.amount;
 
             Ok(positions)
         },
     )?;
 
-    // add the weight to the global weight and the user's weight
-    let weight = calculate_weight(unbonding_duration, amount)?;
+    // add the weight to the global weight and the user's weight. The weight added is the difference
+    // between the weight of the expanded position and the weight the position had before, which is
+    // exactly what closing the position takes away later (weights are rounded down, so the weight of
+    // the added amount alone can be smaller than that difference).
+    let weight = calculate_weight(unbonding_duration, expanded_position_amount)?
+        .checked_sub(calculate_weight(
+            unbonding_duration,
+            previous_position_amount,
+        )?)
+        .map_err(StdError::overflow)?;
     GLOBAL_WEIGHT.update::<_, StdError>(deps.storage, |global_weight| {
         Ok(global_weight.checked_add(weight)?)
     })?;
